@@ -48,6 +48,17 @@ class Obligation:
                 'backend': self.backend, 'detail': self.detail}
 
 
+class StubToken:
+    """opaque result of a stubbed callee (only its identity is known)"""
+
+    def __init__(self, name, k):
+        self.name = name
+        self.k = k
+
+    def __repr__(self):
+        return f'<result {self.k} of {self.name}>'
+
+
 class RunState:
     def __init__(self):
         self.phase = 'pre'
@@ -56,6 +67,7 @@ class RunState:
         self.result = None
         self.exc = None
         self.inputs = {}
+        self.stub_calls = {}
 
 
 class Verifier:
@@ -199,17 +211,33 @@ class Verifier:
         def _draws(I_, a, k):
             return len(a[0].draws)
 
+        def calls_of(x):
+            if isinstance(x, str):
+                return self.state.stub_calls.setdefault(x, [])
+            return x.calls
+
         @b('ghost_calls')
         def _ghost_calls(I_, a, k):
-            return len(a[0].calls)
+            return len(calls_of(a[0]))
+
+        def call_k(x, k_):
+            cs = calls_of(x)
+            if not (isinstance(k_, int) and 0 <= k_ < len(cs)):
+                from .core import py_raise
+                py_raise('IndexError', 'no such ghost call')
+            return cs[k_]
 
         @b('ghost_result')
         def _ghost_result(I_, a, k):
-            return a[0].calls[a[1]]['result']
+            return call_k(a[0], a[1])['result']
+
+        @b('ghost_kwarg')
+        def _ghost_kwarg(I_, a, k):
+            return call_k(a[0], a[1])['kwargs'][a[2]]
 
         @b('ghost_arg')
         def _ghost_arg(I_, a, k):
-            return a[0].calls[a[1]]['args'][a[2]]
+            return call_k(a[0], a[1])['args'][a[2]]
 
         @b('is_none_obj')
         def _isnone(I_, a, k):
@@ -421,6 +449,20 @@ class Verifier:
                 out['inputs'][name] = {'unextractable': str(e)}
         return out
 
+    def make_stub(self, st, sname, ret=None):
+        I = self.I
+        def hook(I_, f, args, kwargs):
+            calls = st.stub_calls.setdefault(sname, [])
+            if ret is None:
+                tok = StubToken(sname, len(calls))
+            else:
+                si = self.factory.make(ret, f'{sname.split(":")[-1].split(".")[-1]}_r{len(calls)}')
+                st.inputs[f'stub:{sname}:{len(calls)}'] = si
+                tok = si.value
+            calls.append({'args': list(args), 'kwargs': dict(kwargs), 'result': tok})
+            return tok
+        return hook
+
     # ------------------------------------------------------------------ running
     def verify(self, spec):
         I = self.I
@@ -434,31 +476,44 @@ class Verifier:
             self.state = st
             args = []
             kwargs = {}
+            byname = {}
+            ghost = spec.opts.get('ghost', [])
             for pname, sort in spec.args.items():
                 si = self.factory.make(sort, pname)
                 st.inputs[pname] = si
+                byname[pname] = si.value
+                if pname in ghost:
+                    continue
                 if pname in spec.kwonly:
                     kwargs[pname] = si.value
                 else:
                     args.append(si.value)
-            allargs = args + [kwargs[k] for k in spec.kwonly]
             if spec.kind == 'lemma':
                 st.phase = 'post'
-                I.call(spec.fn, allargs, {})
+                I.call(spec.fn, [], byname)
                 covers[0] += 1
                 return None
             st.phase = 'pre'
-            I.call(spec.fn, allargs, {})
+            I.call(spec.fn, [], byname)
             st.phase = 'body'
+            hooks = {}
+            stubs = spec.opts.get('stubs', [])
+            if isinstance(stubs, (list, tuple)):
+                stubs = {s_: None for s_ in stubs}
+            for sname, ret in stubs.items():
+                hooks[self.resolve_target(sname)] = self.make_stub(st, sname, ret)
+            I.contract_hooks = hooks
             try:
                 st.result = I.call(target, args, kwargs)
             except PyRaise as e:
                 st.exc = e.exc
+            finally:
+                I.contract_hooks = {}
             st.phase = 'post'
             st.old_i = 0
             if I.check_sat() != z3.unsat:
                 covers[0] += 1
-            I.call(spec.fn, allargs, {})
+            I.call(spec.fn, [], byname)
             return None
 
         before = set(self.results)
